@@ -59,6 +59,18 @@ def align_guard(ctx, rule='C16.align-guard'):
                     any(a[0] == 'call' and last_seg(strip_generics(a[2])) in ('is_multiple_of', 'is_power_of_two') for a in da)
                 if not good_mod:
                     continue
+                # flow-insensitive slices cannot tell `pagesize % 8` from `self.pagesize % 8` (the field is assigned the argument later): the tested value must
+                # be the supplied argument itself (a plain copy of it), judged on the expression tree
+                def _tests_arg(e):
+                    if e[0] == 'bin' and e[1] in ('Rem', 'BitAnd'):
+                        return any(x[0] == 'arg' and x[1] in supplied for x in (e[2], e[3]))
+                    if e[0] == 'call' and last_seg(strip_generics(e[1])) in ('is_multiple_of', 'is_power_of_two'):
+                        return bool(e[2]) and e[2][0][0] == 'arg' and e[2][0][1] in supplied
+                    if e[0] in ('bin', 'un'):
+                        return any(_tests_arg(x) for x in e[2:] if isinstance(x, tuple))
+                    return False
+                if not _tests_arg(du.sym(t['discr'])):
+                    continue
                 # one edge must not return normally, and the store must be behind the other
                 for sx in fn.succ(gb):
                     reach = fn.reach_from([sx])
@@ -79,6 +91,132 @@ def align_guard(ctx, rule='C16.align-guard'):
     return res
 
 
+def _tree_has(e, pred, depth=0):
+    if depth > 40 or not isinstance(e, tuple):
+        return False
+    if pred(e):
+        return True
+    for x in e[1:]:
+        if isinstance(x, tuple) and _tree_has(x, pred, depth + 1):
+            return True
+        if isinstance(x, list) and any(_tree_has(y, pred, depth + 1) for y in x):
+            return True
+    return False
+
+
+def _is_len(e):
+    return e[0] == 'call' and last_seg(strip_generics(e[1])) == 'len' and 'Metadata' in e[1]
+
+
+def _is_req(e):
+    """num_pages * pagesize (either order), both read from fields"""
+    if e[0] == 'bin' and e[1] == 'Mul':
+        names = set()
+        for x in (e[2], e[3]):
+            if x[0] == 'field':
+                names.add(x[2][-1])
+        return names == {'num_pages', 'pagesize'}
+    return False
+
+
+def size_facts(e, depth=0):
+    """tiny abstract domain for the growth arithmetic (unsigned integers; REQ = num_pages*pagesize, LEN = current file length, D = REQ - LEN > 0 on
+    the growth path).  Facts about the value of e:  'GE_REQ' e >= REQ;  'D' e == D;  'GE_D' e >= D;  ('FLOOR', m) e == floor(D / m);
+    ('CEILQ', m) e * m >= D;  ('CONST', c)."""
+    if depth > 30:
+        return set()
+    k = e[0]
+    if k == 'const' and isinstance(e[1], int):
+        return {('CONST', e[1])}
+    if _is_req(e):
+        return {'GE_REQ'}
+    if k == 'bin':
+        op, a, b = e[1], size_facts(e[2], depth + 1), size_facts(e[3], depth + 1)
+        ca = next((f[1] for f in a if isinstance(f, tuple) and f[0] == 'CONST'), None)
+        cb = next((f[1] for f in b if isinstance(f, tuple) and f[0] == 'CONST'), None)
+        out = set()
+        if op == 'Sub' and _is_req(e[2]) and _is_len(e[3]):
+            return {'D', 'GE_D'}
+        if op == 'Div' and 'D' in a and cb:
+            return {('FLOOR', cb)}
+        if op == 'Add':
+            for x, y, cy in ((a, b, cb), (b, a, ca)):
+                for f in x:
+                    if isinstance(f, tuple) and f[0] == 'FLOOR' and cy is not None and cy >= 1:
+                        out.add(('CEILQ', f[1]))
+                    if isinstance(f, tuple) and f[0] == 'CEILQ':
+                        out.add(f)
+                if 'GE_D' in x:
+                    out.add('GE_D')
+                if 'GE_REQ' in x:
+                    out.add('GE_REQ')
+            if ('GE_D' in a and _is_len(e[3])) or ('GE_D' in b and _is_len(e[2])):
+                out.add('GE_REQ')
+            # (D + (m - 1)) / m  handled under Div below through the marker ('DPLUS', m - 1)
+            if 'D' in a and cb is not None:
+                out.add(('DPLUS', cb))
+            if 'D' in b and ca is not None:
+                out.add(('DPLUS', ca))
+            return out
+        if op == 'Div' and cb:
+            for f in a:
+                if isinstance(f, tuple) and f[0] == 'DPLUS' and f[1] >= cb - 1:
+                    return {('CEILQ', cb)}
+        if op == 'Mul':
+            for x, cy in ((a, cb), (b, ca)):
+                for f in x:
+                    if isinstance(f, tuple) and f[0] == 'CEILQ' and cy is not None and cy >= f[1]:
+                        out.add('GE_D')
+                if 'GE_D' in x and cy is not None and cy >= 1:
+                    out.add('GE_D')
+                if 'GE_REQ' in x and cy is not None and cy >= 1:
+                    out.add('GE_REQ')
+            return out
+        return set()
+    if k == 'call':
+        name = last_seg(strip_generics(e[1]))
+        args = [size_facts(x, depth + 1) for x in e[2]]
+        consts = [next((f[1] for f in a if isinstance(f, tuple) and f[0] == 'CONST'), None) for a in args]
+        keep = lambda fs: {f for f in fs if f in ('GE_D', 'GE_REQ') or (isinstance(f, tuple) and f[0] == 'CEILQ')}
+        if name == 'max' and len(args) == 2:
+            return keep(args[0]) | keep(args[1])
+        if name == 'min' and len(args) == 2:
+            return keep(args[0]) & keep(args[1])
+        if name in ('saturating_add', 'wrapping_add', 'checked_add', 'add') and len(args) == 2:
+            out = keep(args[0]) | keep(args[1])
+            if ('GE_D' in args[0] and _is_len(e[2][1])) or ('GE_D' in args[1] and _is_len(e[2][0])):
+                out.add('GE_REQ')
+            return out
+        if name == 'div_ceil' and len(args) == 2 and 'D' in args[0] and consts[1]:
+            return {('CEILQ', consts[1])}
+        if name == 'next_multiple_of' and len(args) == 2:
+            return keep(args[0])
+        if name in ('unwrap', 'expect', 'unwrap_or', 'into', 'from', 'try_into', 'try_from') and args:
+            return keep(args[0]) | {f for f in args[0] if f == 'D'}
+        return set()
+    return set()
+
+
+def _fmt(e, depth=0):
+    if depth > 12:
+        return '..'
+    k = e[0]
+    if k == 'const':
+        return str(e[1])
+    if k == 'arg':
+        return 'arg%d' % e[1]
+    if k == 'field':
+        return '%s.%s' % (_fmt(e[1], depth + 1), '.'.join(e[2]))
+    if k == 'bin':
+        return '(%s %s %s)' % (_fmt(e[2], depth + 1), e[1], _fmt(e[3], depth + 1))
+    if k == 'un':
+        return '%s(%s)' % (e[1], _fmt(e[2], depth + 1))
+    if k == 'call':
+        return '%s(%s)' % (last_seg(strip_generics(e[1])), ', '.join(_fmt(x, depth + 1) for x in e[2]))
+    if k == 'phi':
+        return '_%d' % e[1]
+    return '?'
+
 def grow(ctx, rule='C16.grow'):
     res = []
     F = ctx.facts
@@ -95,6 +233,14 @@ def grow(ctx, rule='C16.grow'):
             if c and (c['path'] == rz.path or (c.get('resolved') or {}).get('path') == rz.path):
                 sites.append((n.fn, n.bb))
     sites = sorted(set(sites), key=lambda x: (x[0].path, x[1]))
+    # judge the call inside the commit function with its private helpers folded in: the growth decision, the size arithmetic and the use of the result
+    # may be spread over helpers (grow_file(..), grow_to_fit(..))
+    cm = ctx.A.get('Tx::commit')
+    if cm is not None and sites:
+        X = ctx.x(cm)
+        xs = [(X, bb) for bb, t, c in calls_to_fn(F, X, rz)]
+        if xs:
+            sites = xs
     f = floor(rule, 'calls of the resize role in the commit trace', len(sites), 1)
     if f:
         return [f]
@@ -108,19 +254,30 @@ def grow(ctx, rule='C16.grow'):
             if at['k'] != 'switch':
                 continue
             _, da = du.slice_operand(at['discr'])
-            if has_field(da, 'Meta', 'num_pages') and any(x[0] == 'call' and x[2] == 'std::fs::Metadata::len' for x in da) and has_field(da, 'DBInner', 'pagesize'):
+            if not (has_field(da, 'Meta', 'num_pages') and any(x[0] == 'call' and x[2] == 'std::fs::Metadata::len' for x in da) and has_field(da, 'DBInner', 'pagesize')):
+                continue
+            # the flow-insensitive slice over-approximates in a large body: the test itself must compare the file length with the required size
+            tree = du.sym(at['discr'])
+            if tree[0] in ('phi', '?') or _tree_has(tree, _is_len):
                 decided = True
                 # (b) ... and is taken after the header's num_pages was fixed
-                hw = [(b2, si) for b2, si, s2 in stores_to_field(fn, 'Meta', 'num_pages') if len([e for e in s2['p']['pr'] if e['k'] == 'field']) >= 2]
+                def _tx_num_pages(pl):
+                    # the transaction's own header copy: `self.meta.num_pages`, also when reached through a `&mut Meta` handed to a helper
+                    fs = [e for e in pl['pr'] if e['k'] == 'field']
+                    if len(fs) >= 2:
+                        return fs[-1].get('name') == 'num_pages' and bool(fs[-2].get('adt')) and last_seg(fs[-2]['adt']) == 'TxInner'
+                    return any(len(path) >= 2 and path[-1] == 'num_pages' and path[-2] == 'meta' and 'freelist' not in path for (_r, path) in du._place_cells(pl))
+                hw = [(b2, si) for b2, si, s2 in stores_to_field(fn, 'Meta', 'num_pages') if _tx_num_pages(s2['p'])]
                 # loads of the transaction's num_pages (the required size is computed from them)
                 loads = []
+                locs_d, _ = du.slice_operand(at['discr'])
                 for b3 in fn.reachable_blocks():
                     for s3i, s3 in enumerate(fn.blocks[b3]['stmts']):
-                        if s3['k'] == 'assign':
+                        if s3['k'] == 'assign' and s3['p']['l'] in locs_d:      # only loads that feed the growth decision
                             from facts import rvalue_places
                             for pl in rvalue_places(s3['rv']):
                                 fs = [e for e in pl['pr'] if e['k'] == 'field']
-                                if len(fs) >= 2 and fs[-1].get('name') == 'num_pages' and fs[-2].get('adt') and last_seg(fs[-2]['adt']) == 'TxInner':
+                                if fs and fs[-1].get('name') == 'num_pages' and _tx_num_pages(pl):
                                     loads.append((b3, s3i))
                 after = lambda st, ld: (st[0] == ld[0] and st[1] < ld[1]) or (st[0] != ld[0] and fn.dominates(st[0], ld[0]))
                 if hw and loads and all(any(after(st, ld) for st in hw) for ld in loads if fn.dominates(ld[0], a) or ld[0] == a):
@@ -139,6 +296,16 @@ def grow(ctx, rule='C16.grow'):
         else:
             res.append(bad(rule, '%s | new size independent of the required size' % fn.qual,
                            'the size passed to the resize role at %s does not depend on both the required size (num_pages) and the current file length' % fn.loc(bb), where=fn.loc(bb)))
+        # (e) ... and is provably at least the required size (abstract evaluation of the size expression; see size_facts)
+        if len(t['args']) > 2:
+            e = du.sym(t['args'][2])
+            if 'GE_REQ' in size_facts(e):
+                res.append(ok(rule, 'new file size at %s is provably >= num_pages * pagesize (length + a rounded-up amount that covers the shortfall)' % fn.loc(bb), sites=1))
+            else:
+                res.append(bad(rule, '%s | new size not provably at least the required size' % fn.qual,
+                               'the size passed to the resize role at %s cannot be shown to be >= num_pages * pagesize for every shortfall (expression: %s): when the file has to grow by more '
+                               'than the rounding unit the map ends before pages the new header points to, and the next transaction reads beyond it'
+                               % (fn.loc(bb), _fmt(e)), where=fn.loc(bb)))
         # (d) the transaction's Pages are replaced from the result, behind the success edge
         rs = result_switch(fn, bb)
         st = stores_to_field(fn, 'TxInner', 'pages')
@@ -146,7 +313,8 @@ def grow(ctx, rule='C16.grow'):
             res.append(bad(rule, '%s | transaction keeps the old map after growth' % fn.qual, 'after growing the file the transaction\'s Pages are not replaced: the strict check and later reads would index beyond the old map', where=fn.loc(bb)))
         for b2, si, s2 in st:
             _, pa = du.slice_operand(s2['rv']['op']) if s2['rv']['k'] == 'use' else (None, set())
-            behind = rs and rs['ok'] is not None and b2 not in fn.reach_from([0], avoid_edges={(rs['switch_bb'], rs['ok'])})
+            # never executed after a failed growth (the error arm cannot reach it), and data-dependent on the call: it can only be the success value
+            behind = rs and rs['ok'] is not None and rs.get('err') is not None and b2 not in fn.reach_from([rs['err']]) and b2 in fn.reach_from([rs['ok']])
             if has_call(pa, rz.path) and behind:
                 res.append(ok(rule, 'transaction Pages replaced at %s from the new map, behind the success of the growth' % fn.loc(b2, si), sites=1))
             else:
@@ -314,13 +482,13 @@ def remap_always(ctx, rule='C16.remap-always'):
         (rz,) = ctx.need('resize-role')
     except AnchorError as e:
         return [unresolved(rule, str(e))]
-    fn = rz
+    fn = ctx.x(rz)
     E = ctx.E
     Ms = {bb for bb in fn.reachable_blocks() for si, s in enumerate(fn.blocks[bb]['stmts']) if any(e['ev'] == 'M' for e in E.classify_stmt(fn, bb, si, s))}
     if not Ms:
         return [floor(rule, 'store of the new map in the resize role', 0, 1)]
-    ok_rets = [bb for bb in fn.reachable_blocks() for s in fn.blocks[bb]['stmts']
-               if s['k'] == 'assign' and s['p']['l'] == 0 and s['rv']['k'] == 'agg' and s['rv'].get('variant') == 'Ok']
+    import c03
+    ok_rets = c03.ok_return_blocks(fn)
     reach = fn.reach_from([0], avoid=Ms)
     leak = [b for b in ok_rets if b in reach]
     if leak:
